@@ -505,6 +505,30 @@ def _build(v: Any, side: str) -> Any:
     return v
 
 
+def _rounding_allowance(fn: str, np_args: list) -> float:
+    """Absolute tolerance for functions numpoly evaluates in another operation order than numpy (exact expansion
+    against LU factorisation, term-by-term products against BLAS, sequential against pairwise sums): rounding errors
+    scale with the magnitude of the intermediate products, not with the (possibly cancelled) result."""
+    degree = {"det": None, "matmul": 2, "inner": 2, "prod": None, "sum": 1, "mean": 1, "cumsum": 1}.get(fn, 0)
+    if degree == 0 and fn not in ("det", "prod"):
+        return 0.0
+    m = 1.0
+    size = 1
+    for a in np_args:
+        if isinstance(a, numpy.ndarray) and a.dtype.kind in "iufc" and a.size:
+            finite = numpy.abs(a[numpy.isfinite(a)]) if a.dtype.kind in "fc" else numpy.abs(a.astype(float))
+            if finite.size:
+                m = max(m, float(finite.max()))
+            size = max(size, a.size)
+            if fn == "det":
+                degree = a.shape[-1]
+            elif fn == "prod":
+                degree = max(a.shape) if a.ndim else 1
+    if m <= 4.0:  # small exactly representable data: numpoly and numpy agree to the last bits that the relative test leaves
+        return 1e-9 if fn == "det" else 0.0
+    return 1e-11 * size * m ** (degree or 1)
+
+
 def _errstate(step: dict) -> Any:
     """Default: everything silent.  "raise": invalid operations and divisions by zero raise (integer wrap-around and
     float overflow stay silent: numpy itself treats them differently for scalars and arrays)."""
@@ -705,7 +729,7 @@ class Runner:
             # numpy's det goes through a floating-point LU factorisation; numpoly expands exactly
             # bit-for-bit only when the operands are laid out like the reference's (pairwise summation follows the memory order)
             same_layout = not any(isinstance(a, dict) and a.get("dress") == 3 for a in step["args"])
-            msg = _compare(want, conv, fn in TYPED, atol=1e-9 if fn == "det" else 0.0, exact=fn in EXACT and same_layout)
+            msg = _compare(want, conv, fn in TYPED, atol=_rounding_allowance(fn, np_args), exact=fn in EXACT and same_layout)
             if msg:
                 clause = "ties-first-occurrence" if fn in ("argmax", "argmin") else ("extreme-along-axis" if fn in ORDERING else "matches-numpy")
                 self.violate(clause, fn, sid, f"[{pol}/{fill}] kwargs={step['kwargs']}: {msg}", dict(traits, env="default" if (pol, fill) == ("stable", "zero") else "adversarial"))
